@@ -273,6 +273,25 @@ class Fork(Exception):
         self.place_root, self.alternatives = place_root, alternatives
 
 
+class SplitTerm(Exception):
+    """raised when a constant lookup table is indexed by a symbolic term with few possible values: the state is split
+    into one state per value"""
+
+    def __init__(self, term, values):
+        Exception.__init__(self)
+        self.term, self.values = term, values
+
+
+def is_ground(v):
+    if isinstance(v, Sc):
+        return v.term[0] == 'c'
+    if isinstance(v, Ag):
+        return all(is_ground(f) for f in v.fields)
+    if isinstance(v, Ar):
+        return all(is_ground(e) for e in v.elems)
+    return False
+
+
 # ------------------------------------------------------------------ invariants of the crate's types
 
 NEWTYPE_MAX = {
@@ -284,6 +303,7 @@ NEWTYPE_MAX = {
 
 class Interp(object):
     STEP_BUDGET = 150000
+    SMALL_ENUM = 4              # field-less enums up to this many variants are split by variant when copied while unknown
     TIME_BUDGET = 10.0          # seconds per run; exceeding it ends the remaining paths as 'lost' (fail closed)
     MAX_DEPTH = 40
 
@@ -453,6 +473,11 @@ class Interp(object):
                 idx = fr.locals.get(p['local'])
                 if not isinstance(idx, Sc):
                     raise Lost('non-scalar index')
+                vi = vs_of(idx.term, st.cons)
+                if not vi.single() and not vi.empty() and vi.lo >= 0 and vi.hi - vi.lo < 64:
+                    base = self._get_path(st, f.locals.get(local, Un(None, 'uninit')), path)
+                    if isinstance(base, Ar) and is_ground(base) and not all(val_eq(e, base.elems[0]) for e in base.elems):
+                        raise SplitTerm(idx.term, sorted(vi.s) if vi.s is not None else list(range(vi.lo, vi.hi + 1)))
                 path.append(('i', idx.term))
                 variant = None
             elif k == 'cindex' and not p['from_end']:
@@ -539,8 +564,10 @@ class Interp(object):
             raise Lost('index write into %r' % (v,))
         raise Lost('write step')
 
-    def write_place(self, st, fr, pl, val):
+    def write_place(self, st, fr, pl, val, mat=False):
         f, local, path = self.resolve_place(st, fr, pl)
+        if not mat and f.fid == 0 and local == 'self':
+            st.events.append(('w', tuple(path)))       # explicit program write into the receiver (not a lazy materialisation)
         self._write_path(st, f, local, path, val)
 
     def deref(self, st, v):
@@ -556,15 +583,24 @@ class Interp(object):
             n += 1
         return v
 
-    def store_through(self, st, rf, val):
+    def store_through(self, st, rf, val, mat=False):
         f = st.frame(rf.fid)
+        if not mat and f.fid == 0 and rf.local == 'self':
+            st.events.append(('w', tuple(rf.path)))
         self._write_path(st, f, rf.local, list(rf.path), val)
 
     # ================================================================ operands / rvalues
     def operand(self, st, fr, o):
         k = o['k']
         if k in ('copy', 'move'):
-            return self.read_place(st, fr, o['place'])
+            v = self.read_place(st, fr, o['place'])
+            if isinstance(v, Un) and v.ty is not None and v.ty['k'] == 'adt':
+                # copying an unknown value of a small field-less enum would lose the link between the copy and the
+                # original (`match (self.a, self.b)` builds a tuple of copies): split the original by variant first
+                alts = self.enum_variants(v.ty)
+                if alts is not None and 1 < len(alts) <= self.SMALL_ENUM and all(not ftys for _, _, ftys in alts):
+                    raise Fork(o['place'], (v.ty, alts))
+            return v
         if k == 'const':
             return self.const(st, fr, o)
         raise Lost('operand ' + k)
@@ -1041,6 +1077,8 @@ class Interp(object):
                     val = self.rvalue(st, fr, stm['rv'], site)
                 except Fork as fk:
                     return self.fork_enum(st, fr, fk)
+                except SplitTerm as sp:
+                    return self.split_term(st, sp)
                 self.write_place(st, fr, stm['place'], val)
             elif stm['k'] == 'setdiscr':
                 v = self.read_place(st, fr, stm['place'])
@@ -1063,12 +1101,35 @@ class Interp(object):
             self.finish(st, 'unreachable', None, (fr.key, fr.bb, 't'))
             return []
         if k == 'assert':
-            return self.do_assert(st, fr, t)
+            try:
+                return self.do_assert(st, fr, t)
+            except Fork as fk:
+                return self.fork_enum(st, fr, fk)
+            except SplitTerm as sp:
+                return self.split_term(st, sp)
         if k == 'switch':
-            return self.do_switch(st, fr, t)
+            try:
+                return self.do_switch(st, fr, t)
+            except Fork as fk:
+                return self.fork_enum(st, fr, fk)
+            except SplitTerm as sp:
+                return self.split_term(st, sp)
         if k == 'call':
-            return self.call(st, fr, t)
+            try:
+                return self.call(st, fr, t)
+            except Fork as fk:
+                return self.fork_enum(st, fr, fk)
+            except SplitTerm as sp:
+                return self.split_term(st, sp)
         raise Lost('terminator ' + k + ' ' + t.get('s', '')[:60])
+
+    def split_term(self, st, sp):
+        outs = []
+        for v in sp.values:
+            s2 = st.clone()
+            if T.refine(sp.term, VS.one(v), s2.cons):
+                outs.append(s2)
+        return outs
 
     def fork_enum(self, st, fr, fk):
         ty, alts = fk.alternatives
@@ -1077,7 +1138,7 @@ class Interp(object):
             s2 = st.clone()
             f2 = s2.top()
             fields = [self.top_of(s2, ft, name.lower()) for ft in ftys]
-            self.write_place(s2, f2, fk.place_root, Ag(ty['path'], i, fields))
+            self.write_place(s2, f2, fk.place_root, Ag(ty['path'], i, fields), mat=True)
             outs.append(s2)
         return outs
 
